@@ -41,4 +41,17 @@ Section ProlongationTie.
     destruct (Z.odd i); destruct (Z.odd j); cbn [app flat_map map fst snd apply_row2 fold_right];
       rewrite ?app_nil_r; f_equal; f_equal; rsc; field; lra.
   Qed.
+
+  (* the extrapolated prolongation (macro FINE_NODE_EXTRAPOLATED_PROLONGATION): index-space 1/2 weights on the 7-point pattern *)
+  Theorem gen_extrapolated_prolongation_is_model : forall (x : Z -> Z -> R) (i j : Z), (0 <= i < nr)%Z -> (0 <= j < nth)%Z ->
+    @gen_extrapolated_prolongation Rsc nth nthc x i j =
+    [ (((i, j), W_result_WAssign), @apply_row2 Rsc (@Pex_row Rsc nth i j) x) ].
+  Proof.
+    intros x i j Hi Hj. destruct nthc_facts as [E Hc]. pose proof (half_bounds j Hj) as Hq.
+    unfold gen_extrapolated_prolongation, Pex_row, odd, InterpDefs.nthc. fold nthc. cbv zeta.
+    rewrite ?wrapT_idem. rewrite ?(wrapT_small nth j Hj). rewrite ?(wrapT_small nthc (Z.quot j 2) Hq).
+    rewrite ?(wrapT_wrap1 nthc (Z.quot j 2 + 1)) by lia.
+    destruct (Z.odd i); destruct (Z.odd j); cbn [app fst snd apply_row2 fold_right];
+      rewrite ?app_nil_r; f_equal; f_equal; rsc; field.
+  Qed.
 End ProlongationTie.
